@@ -162,6 +162,8 @@ def run_realign(case, d, platform=None, cores=None, batch=None, sub="out.gaf", g
                 res = core.call(R.run_realign, gaf_path, os.path.join(d, gfa_name), fa, out, ncores)
         except fakemp.Hang:
             res = ("hang", None)
+        except fakemp.Unsupported as e:
+            raise RuntimeError("inconclusive: %s" % e)
     finally:
         R.mp = old_mp
         R.WavefrontAligner = old_aligner
